@@ -5,6 +5,7 @@ import IPT.Model.Qibla
 import IPT.Model.Bounded
 import IPT.Model.F64
 import IPT.Model.Cli
+import IPT.Model.CliDecode
 /- Line-protocol driver: the Float instance of the model, one request per line, one answer per
    line.  Every f64 travels as 16 hex digits of its bit pattern. -/
 namespace IPT.Driver
@@ -391,7 +392,8 @@ def handle (toks : List String) : String :=
         | .ok days =>
           let js := renderRange days
           let jc := renderRangeCanon days
-          s!"J {js.utf8ByteSize} {hexOfBits (fnv1a js).toNat} {jc.utf8ByteSize} {hexOfBits (fnv1a jc).toNat}"
+          let dec := if decodeRange js == some days then "D1" else "D0"
+          s!"J {js.utf8ByteSize} {hexOfBits (fnv1a js).toNat} {jc.utf8ByteSize} {hexOfBits (fnv1a jc).toNat} {dec}"
         | .error e => showPanic e)
       | _, _ => bad)
     | _, _ => bad
